@@ -28,6 +28,13 @@ func (p *PgSQLDataEncoderProcessor) ID() string {
 // OnColumn encode binary value to text and back. Should be before and after tokenizer processor
 func (p *PgSQLDataEncoderProcessor) OnColumn(ctx context.Context, data []byte) (context.Context, []byte, error) {
 	if len(data) == 0 {
+		// the decoder may have turned an escaped value (an empty hex string `\x`) into empty data; if nothing was
+		// decrypted, the value goes back to the client the way it came from the database
+		if !base.IsDecryptedFromContext(ctx) {
+			if encodedValue, ok := base.GetEncodedValueFromContext(ctx); ok {
+				return ctx, encodedValue, nil
+			}
+		}
 		return ctx, data, nil
 	}
 
